@@ -1153,10 +1153,14 @@ dt_strfd(char *restrict buf, size_t bsz, const char *fmt, struct dt_d_s that)
 		} else if (LIKELY(!spec.rom)) {
 			size_t nd = __strfd_card(bp, eo - bp, spec, &d, that);
 
+			if (UNLIKELY(nd > (size_t)(eo - bp))) {
+				/* field was cut short */
+				nd = eo - bp;
+			}
 			bp += nd;
 			if (spec.ord) {
 				bp += __ordtostr(bp, eo - bp, nd);
-			} else if (spec.bizda) {
+			} else if (spec.bizda && bp < eo) {
 				/* don't print the b after an ordinal */
 				if (spec.ab == BIZDA_AFTER) {
 					*bp++ = 'b';
@@ -1166,6 +1170,9 @@ dt_strfd(char *restrict buf, size_t bsz, const char *fmt, struct dt_d_s that)
 			}
 		} else if (UNLIKELY(spec.rom)) {
 			bp += __strfd_rom(bp, eo - bp, spec, &d, that);
+			if (UNLIKELY(bp > eo)) {
+				bp = eo;
+			}
 		}
 	}
 	if (bp < buf + bsz) {
@@ -1363,7 +1370,10 @@ dt_strfddur(char *restrict buf, size_t bsz, const char *fmt, struct dt_ddur_s th
 			*bp++ = *fp_sav;
 		} else if (LIKELY(!spec.rom)) {
 			bp += __strfd_dur(bp, eo - bp, spec, &d, that);
-			if (spec.bizda) {
+			if (UNLIKELY(bp > eo)) {
+				/* field was cut short */
+				bp = eo;
+			} else if (spec.bizda && bp < eo) {
 				/* don't print the b after an ordinal */
 				if (d.flags.ab == BIZDA_AFTER) {
 					*bp++ = 'b';
